@@ -61,3 +61,15 @@ pub proof fn lemma_opt_flatten<U>(opts: Seq<Option<U>>)
         }
     }
 }
+pub proof fn lemma_flatten_filter<T>(items: Seq<T>, opts: Seq<Option<T>>, p: spec_fn(T) -> bool)
+    requires opts.len() == items.len(), forall|i: int| 0 <= i < items.len() ==> #[trigger] opts[i] == (if p(items[i]) { Some(items[i]) } else { None::<T> })
+    ensures opt_flatten(opts) == items.filter(p)
+    decreases items.len()
+{
+    reveal_with_fuel(Seq::filter, 2);
+    if items.len() > 0 {
+        lemma_flatten_filter(items.drop_last(), opts.drop_last(), p);
+        assert(opts.last() == opts[opts.len() - 1]);
+        assert(items.last() == items[items.len() - 1]);
+    }
+}
